@@ -144,5 +144,17 @@ def rule_x_contract(ctx):
         e, r = _calls(b, "erase_no_drop"), _calls(b, "Bucket::read")
         ok = bool(e) and bool(r)
     fact("remove:free-and-return", ok, "RawTable::remove marks the slot free and returns the element by value")
-    R.floor(9, "contract facts")
+    # (ix) into_iter_from trusts the iterator it is given: the owning iterator yields (and later drops) exactly what that iterator covers
+    b = _body(f, "RawTable::into_iter_from")
+    ok = False
+    if b is not None:
+        for loc, st in b.all_assigns():
+            rv = st["rv"]
+            if rv["k"] == "aggregate" and rv.get("agg") == "adt" and (rv.get("adt") or "").endswith("RawIntoIter"):
+                for nm, o in zip(rv.get("fields", []), rv["ops"]):
+                    if nm == "iter":
+                        q = b.op_path(o)
+                        ok = q is not None and q.root == 2 and not q.fields()
+    fact("into_iter_from:uses-given-iterator", ok, "RawTable::into_iter_from builds the owning iterator around the very iterator it is handed (so it must be the table's own, complete cursor: B-into)")
+    R.floor(10, "contract facts")
     return R
